@@ -215,6 +215,9 @@ impl Property for C10 {
     fn components(&self) -> serde_json::Value {
         crate::components_mac()
     }
+    fn coverage_extra(&self, tier: Tier, runs: u64) -> serde_json::Value {
+        serde_json::json!({ "bounded_depth_enumeration": super::enum_coverage(tier, runs) })
+    }
     fn budget(&self, tier: Tier) -> u64 {
         match tier {
             Tier::Quick => 1_500_000,
@@ -225,6 +228,10 @@ impl Property for C10 {
         // one run in five borrows another property"s generator (same case type), so that this oracle also
         // judges histories of shapes its own generator does not produce
         if let Some(c) = super::cross_generate("C10", &["C04", "C07", "C08", "C09", "C11", "C12"], seed, run, tier, avoid) {
+            return c;
+        }
+        // bounded-depth enumeration over the event alphabet
+        if let Some(c) = super::enum_generate("C10", run, tier) {
             return c;
         }
         self.own_generate(seed, run, tier, avoid)
